@@ -66,14 +66,48 @@ EvalE(w, e, eff, st, t) ==
      [] e[1] = "comp" -> RSumSeq(st[e[2]])
      [] e[1] = "char" -> CharVal(w, st, e[2])
      [] e[1] = "t" -> t
+     \* cross-population aggregation <<"agg", kind, xs, wm, cs, me>>: xs[j] = the aggregated variable in population j, wm[a][b] = interaction weight
+     \* from population a to b (<<>> = all ones), cs[j] = optional weighting variable in population j, me = this population.
+     \*   SRC_*: sum over j of wm[j][me] * cs[j] * xs[j]      TGT_*: sum over j of wm[me][j] * cs[j] * xs[j];   *_AVG divides by the sum of the weights (0 -> 1)
+     [] e[1] = "agg" -> (LET n == Len(e[3])
+                             X == [j \in 1..n |-> EvalE(w, e[3][j], eff, st, t)]
+                             Wt == [j \in 1..n |-> IF e[4] = <<>> THEN One ELSE IF e[2] \in {"SRC_AVG", "SRC_SUM"} THEN e[4][j][e[6]] ELSE e[4][e[6]][j]]
+                             Cw == [j \in 1..n |-> IF e[5] = <<>> THEN One ELSE EvalE(w, e[5][j], eff, st, t)]
+                             wj == [j \in 1..n |-> RMul(Wt[j], Cw[j])]
+                             num == RSumSet(1..n, [j \in 1..n |-> RMul(wj[j], X[j])])
+                             den == RSumSet(1..n, wj)
+                         IN IF e[2] \in {"SRC_SUM", "TGT_SUM"} \/ den = Zero THEN num ELSE RDiv(num, den))
      [] OTHER -> LET a == EvalE(w, e[2], eff, st, t)  b == EvalE(w, e[3], eff, st, t) IN
                  IF e[1] = "add" THEN RAdd(a, b) ELSE IF e[1] = "sub" THEN RSub(a, b) ELSE IF e[1] = "mul" THEN RMul(a, b)
                  ELSE IF e[1] = "div" THEN (IF a = Zero THEN Zero ELSE RDiv(a, b))
                  ELSE IF e[1] = "min" THEN RMin(a, b) ELSE RMax(a, b)
+\* ---------- programs (C13 inside the engine): a parameter with an effect row -----------------------------------------------
+\* w.pfn[k] = <<"prog", gate, baseline, << <<cap, targets, outcome>>, ... >>, fallback>>: gate and cap are indices of pseudo parameters chosen
+\* by the environment (programs active or not; each program's capacity in people per year, a capacity overwrite), targets the set of
+\* compartments the program reaches.  While programs are active the parameter takes
+\*      Clip( Convert( baseline + sum over program combinations of weight * delta ) )
+\* with coverage_i = min(1, cap_i / eligible_i) (1 when eligible_i <= cap_i, so 0/0 = 1), eligible_i = current size of the targets,
+\* one or two programs (random interaction: independent coverage; a combination's delta is its member delta of largest magnitude),
+\* Convert = outcome * source population / dt for number parameters, outcome / dt for probabilities and rates, outcome otherwise.
+PopSizeOf(w, k, st) == LET ls == {l \in 1..NL(w) : w.lpar[l] = k /\ ~w.lflush[l]} IN RSumSet(ls, [l \in ls |-> RSumSeq(st[w.lsrc[l]])])
+ProgVal(w, k, e, prev, rw, st, t) ==
+   IF prev[e[2]] = Zero THEN (IF e[5][1] = "env" THEN rw[k] ELSE EvalE(w, e[5], prev, st, t))
+   ELSE LET n == Len(e[4])
+            cv == [i \in 1..n |-> LET cap == prev[e[4][i][1]]
+                                       elig == RSumSet(e[4][i][2], [c \in e[4][i][2] |-> RSumSeq(st[c])])
+                                   IN IF RLt(cap, elig) THEN RDiv(cap, elig) ELSE One]
+            d == [i \in 1..n |-> RSub(e[4][i][3], e[3])]
+            dboth == IF n = 2 THEN (IF RLt(RAbs(d[1]), RAbs(d[2])) THEN d[2] ELSE d[1]) ELSE Zero
+            out == IF n = 1 THEN RAdd(e[3], RMul(cv[1], d[1]))
+                   ELSE RAdd(e[3], RAdd(RAdd(RMul(RMul(cv[1], RSub(One, cv[2])), d[1]), RMul(RMul(RSub(One, cv[1]), cv[2]), d[2])), RMul(RMul(cv[1], cv[2]), dboth)))
+            u == w.units[k]
+        IN IF u = "number" THEN RDiv(RMul(out, PopSizeOf(w, k, st)), w.dt) ELSE IF u \in {"probability", "rate"} THEN RDiv(out, w.dt) ELSE out
 RECURSIVE EffUpTo(_,_,_,_,_)
 EffUpTo(w, rw, st, t, k) == IF k = 0 THEN <<>> ELSE
    LET prev == EffUpTo(w, rw, st, t, k - 1)
-       v == IF w.pfn[k][1] = "env" THEN rw[k] ELSE EvalE(w, w.pfn[k], prev, st, t)
+       v == IF w.pfn[k][1] = "env" THEN rw[k]
+            ELSE IF w.pfn[k][1] = "prog" THEN ProgVal(w, k, w.pfn[k], prev, rw, st, t)
+            ELSE EvalE(w, w.pfn[k], prev, st, t)
    IN Append(prev, ClipL(v, w.plim[k]))
 Eff(w, rw, st, k) == EffUpTo(w, rw, st, RAdd(<<2000, 1>>, RMul(RInt(k), w.dt)), Len(w.units))
 
